@@ -6,20 +6,26 @@ never fewer T-states, and extra delay == RefULA folded over RefZ80's bus-cycle l
 """
 import hashlib
 
-from . import gen_lock, lockstep
+from . import gen_lock, lockstep, frames
 from .harness import new_result, fail, bump
 
 PROP = 'C19'
 RUNS = {'quick': 40000, 'thorough': 2000000}
 BUDGET_S = {'quick': 150, 'thorough': 2400}
-CHUNK = 400
+CHUNK = 100
 PROPS = {'C19'}
 REPLICAS = ['py', 'pycmio', 'c', 'ccmio']
 
 def init():
     lockstep.init()
 
+N_FRAMES = {'quick': 1600, 'thorough': frames.total('thorough')}
+
 def gen(rng, tier, index):
+    if index < N_FRAMES[tier]:
+        # frame sweeps first: thorough enumerates every (template, variant, chunk); quick draws a seeded subset
+        k = index if tier == 'thorough' else rng.randrange(frames.total(tier))
+        return frames.scenario(k)
     if index % 8 < 7:
         scn = gen_lock.gen_wstep(rng, tier, index // 8 * 7 + index % 8, REPLICAS)
     else:
@@ -32,7 +38,10 @@ def run(scn):
     res = new_result()
     sigs = set()
     try:
-        lockstep.run_c19(scn, res['stats'], sigs)
+        if scn['kind'] == 'frames':
+            lockstep.run_c19_frames(scn, res['stats'], sigs)
+        else:
+            lockstep.run_c19(scn, res['stats'], sigs)
     except lockstep.Violation as v:
         return fail(res, v.vclass, v.detail)
     frame = 69888 if scn['machine'] == '48K' else 70908
@@ -41,11 +50,22 @@ def run(scn):
     return res
 
 def sample(scn, res):
+    if scn['kind'] == 'frames':
+        return scn
     frame = 69888 if scn['machine'] == '48K' else 70908
     return {'kind': scn['kind'], 'machine': scn['machine'], 'slot': scn.get('slot'), 'steps': scn['steps'], 'frame_T': scn['regs'][25] % frame,
             'o7ffd': scn['mem'].get('o7ffd'), 'regs': scn['regs'], 'patches': scn['mem']['patches'][-1:]}
 
-shrink_candidates = gen_lock.shrink_candidates
+def shrink_candidates(scn):
+    if scn['kind'] == 'frames':
+        # narrow the T range
+        lo, hi = scn['t_lo'], scn['t_hi']
+        if hi - lo > 1:
+            mid = (lo + hi) // 2
+            yield dict(scn, t_hi=mid)
+            yield dict(scn, t_lo=mid)
+        return
+    yield from gen_lock.shrink_candidates(scn)
 
 def describe():
     return {
